@@ -218,7 +218,7 @@ impl Check for C07 {
                 fired: false,
             })
             .collect();
-        let cfg = DriverCfg { wild_timers: false, runtime_changes: true, depth, host_faults: true, recording_filter: false, max_ports: 3 };
+        let cfg = DriverCfg { wild_timers: false, runtime_changes: true, depth, host_faults: true, recording_filter: false, max_ports: 3, shared_segments: false };
         // ---- world A
         let mut a = Driver::new(ch, cfg.clone());
         force_debuggable(&mut a);
